@@ -148,6 +148,44 @@ theorem proxyRootChildren_names_nodup (t : PTree) (perms : List Nat)
         simp only [hu', Bool.false_eq_true, if_false, Option.map_none]
         exact List.Sublist.cons _ ih
 
+/-! ### histories: several commands packets on one backend connection -/
+
+/-- Every packet of a history is answered as if it were the only one: with the tree, requirement outcomes and
+    backend nodes current at that packet. -/
+theorem history_pointwise (h : HState) (hist : List Step) : runHistory h hist = hist.map deliver := by
+  induction hist generalizing h with
+  | nil => rfl
+  | cons s r ih => simp [runHistory, handlePacket, ih]
+
+/-- What the player gets for a commands packet does not depend on the packets handled earlier on the connection
+    (nothing is remembered: requirements are evaluated anew for every packet). -/
+theorem history_independent_of_past (pre₁ pre₂ : List Step) (s : Step) :
+    (runHistory () (pre₁ ++ [s])).getLast? = (runHistory () (pre₂ ++ [s])).getLast? := by
+  simp [history_pointwise]
+
+/-- For every history and every packet in it: each proxy node delivered with that packet — injected into the root
+    or below, also through redirects — passes its requirement AT THAT TIME (in the tree and under the
+    permissions current at that packet), whatever was delivered before. -/
+theorem history_filtered_usable (hist : List Step) (k : Nat) (s : Step) (root : List MNode) (sub : List Tok)
+    (hs : hist[k]? = some s) (hd : (runHistory () hist)[k]? = some (.tree root sub)) :
+    (∀ id ∈ received sub, id = 0 ∨ ∃ nd, s.tree[id - 1]? = some nd ∧ reqOut s.perms nd = .allow) ∧
+    (∀ n i, MNode.proxy n i ∈ root → ∃ nd, s.tree[i - 1]? = some nd ∧ reqOut s.perms nd = .allow ∧ nd.name = n) := by
+  rw [history_pointwise, List.getElem?_map, hs] at hd
+  simp only [Option.map_some, Option.some.injEq, deliver] at hd
+  split at hd
+  · rename_i ts hts
+    cases hd
+    constructor
+    · intro id hid
+      exact filter_usable s.tree s.perms _ 0 ts hts id (received_stripRoot ts id hid)
+    · intro n i hm
+      rcases proxy_mem_foldl_inject _ _ n i hm with h1 | h1
+      · obtain ⟨_, nd, hnd, hu, hn⟩ := injected_are_usable_root_children s.tree s.perms (n, i) h1
+        exact ⟨nd, hnd, hu, hn⟩
+      · simp at h1
+  · cases hd
+  · cases hd
+
 /-! ### redirect cycles (known finding redirect-cycle-diverges) -/
 
 /-- brigadier's `execute … run` shape: `/execute` has a child that redirects to the root -/
@@ -182,6 +220,12 @@ example : filter [⟨0, "server", .free, none⟩, ⟨1, "n2", .perm 1, none⟩, 
 /-- a requirement that panics below a usable node: nothing is delivered; behind a denied node it is never evaluated -/
 example : filter [⟨0, "server", .free, none⟩, ⟨1, "n2", .panics, none⟩] [] 5 0 = .panicked := by decide
 example : filter [⟨0, "server", .perm 1, none⟩, ⟨1, "n2", .panics, none⟩] [] 5 0 = .ok [.node 0, .up] := by decide
+
+/-- a permission revoked between two commands packets on one connection: `admin` is delivered, then it is not -/
+example : runHistory () [⟨[⟨0, "server", .free, none⟩, ⟨0, "admin", .perm 1, none⟩], [1], []⟩,
+                        ⟨[⟨0, "server", .free, none⟩, ⟨0, "admin", .perm 1, none⟩], [], []⟩]
+    = [.tree [.proxy "server" 1, .proxy "admin" 2] [.node 1, .up, .node 2, .up],
+       .tree [.proxy "server" 1] [.node 1, .up]] := by decide
 
 example : merge [⟨"server", 1⟩, ⟨"give", 2⟩] [("server", 1), ("hub", 3)]
     = [.backend ⟨"give", 2⟩, .proxy "server" 1, .proxy "hub" 3] := by decide
